@@ -89,6 +89,10 @@ def features(q):
                 used = set(re.findall(r"\b([a-z_][a-z0-9_]*)\b", wh))
                 if used & (bound - set(vs_all)):
                     f.add("where-reads-earlier-binding")
+                elif "pattern-predicate" in f and re.search(r"\b[a-z_][a-z0-9_]*\s*=\s*\(", text) and \
+                        re.search(r"\(\s*[a-z_0-9]*\s*(?::[a-z0-9_:]+)?\s*\)\s*(?:<-|-)", wh):
+                    # the MATCH that binds a path variable carries, in its own WHERE, a pattern predicate over its own bindings only
+                    f.add("named-path-with-own-pattern-predicate")
             bound |= set(vs_all)
             paths |= set(re.findall(r"\b([a-z_][a-z0-9_]*)\s*=\s*\(", text))
             seen_frame = True
@@ -115,6 +119,8 @@ def features(q):
                 m = re.match(r"^(.*?)\s+as\s+([a-z_][a-z0-9_]*)$", it)
                 if m:
                     src, al = m.group(1).strip(), m.group(2)
+                    if src in paths and al != src:
+                        f.add("path-variable-renamed-in-with")
                     if al in bound and al != src:
                         f.add("with-alias-rebinds-existing-name")
                         if re.fullmatch(r"[a-z_][a-z0-9_]*", src):
